@@ -384,6 +384,92 @@ def body_multidict(I, X, ops=("add", "pop"), cls="MultiDict"):
     return ok, {"trace": trace, "final": md_items(I, md)}
 
 
+def body_combined(I, X, late_add=False):
+    """CombinedMultiDict is a read-through combination of its wrapped dicts: one entry per
+    distinct key (len, keys, iteration), values of a key concatenated in wrapping order,
+    item access = first value, also after a wrapped dict is mutated behind the view"""
+    from werkzeug import datastructures as ds
+
+    k0, k1, k2 = sym_char(X, "k0"), sym_char(X, "k1"), sym_char(X, "k2")
+    d1 = I.call(ds.MultiDict, ([(k0, "v0"), ("c", "v1")],))
+    d2 = I.call(ds.MultiDict, ([(k1, "w0"), (k0, "w1")],))
+    cmd = I.call(ds.CombinedMultiDict, ([d1, d2],))
+    pairs1, pairs2 = [(k0, "v0"), ("c", "v1")], [(k1, "w0"), (k0, "w1")]
+    if late_add:
+        I.call(d2.add, (k2, "w2"))
+        pairs2.append((k2, "w2"))
+    def grouped(pairs):
+        # a MultiDict keeps the values of one key together, keys in first-seen order
+        out = []
+        for k, v in pairs:
+            for g in out:
+                if bool(peq(g[0], k)):
+                    g[1].append(v)
+                    break
+            else:
+                out.append((k, [v]))
+        return [(k, v) for k, vs in out for v in vs]
+
+    allpairs = grouped(pairs1) + grouped(pairs2)
+    distinct = []
+    for k, _ in allpairs:
+        if not any(bool(peq(k, d)) for d in distinct):
+            distinct.append(k)
+    ok = True
+    n = I.call(cmd.__len__, ())
+    keys = list(I.call(cmd.keys, ()))
+    it = list(I.call(cmd.__iter__, ()))
+    ok = pand(ok, n == len(distinct), len(keys) == len(distinct), len(it) == len(distinct))
+    for d in distinct:
+        ok = pand(ok, any(bool(peq(d, k)) for k in keys), bool(I.call(cmd.__contains__, (d,))))
+        want = [v for k, v in allpairs if bool(peq(k, d))]
+        got = list(I.call(cmd.getlist, (d,)))
+        ok = pand(ok, got == want, I.call(cmd.__getitem__, (d,)) == want[0])
+    multi = [(k, v) for k, v in I.call(cmd.items, (), {"multi": True})]
+    ok = pand(ok, len(multi) == len(allpairs))
+    if len(multi) == len(allpairs):
+        for (a, b), (c, d) in zip(multi, allpairs):
+            ok = pand(ok, peq(a, c), b == d)
+    single = [(k, v) for k, v in I.call(cmd.items, ())]
+    ok = pand(ok, len(single) == len(distinct))
+    td = I.call(cmd.to_dict, ())
+    ok = pand(ok, len(list(I.dict_items(td))) == len(distinct))
+    return ok, {"len": n, "multi": [list(x) for x in multi]}
+
+
+def body_environ_headers(I, X, n=1):
+    """EnvironHeaders always reflects the environ: every HTTP_* variable (also with an empty
+    value) shows in iteration, len, get and membership; CONTENT_TYPE / CONTENT_LENGTH only when
+    non-empty (documented), also after the environ changes behind the view"""
+    from werkzeug import datastructures as ds
+
+    v0 = X.str("v0", n, minlen=0, maxcp=0x7E)
+    v1 = X.str("v1", n, minlen=0, maxcp=0x7E)
+    for v in (v0, v1):
+        X.assume(pall_in(v, [(0x20, 0x7E)]))
+    environ = {"HTTP_X_A": v0, "CONTENT_TYPE": v1, "REQUEST_METHOD": "GET", "HTTP_HOST": "h"}
+    h = I.call(ds.EnvironHeaders, (environ,))
+    ok = True
+    for stage in (0, 1):
+        if stage == 1:
+            environ["HTTP_X_B"] = v1
+        items = [(k, v) for k, v in I.call(h.__iter__, ())]
+        want = [("X-A", v0)]
+        if plen(v1) > 0:
+            want.append(("Content-Type", v1))
+        want.append(("Host", "h"))
+        if stage == 1:
+            want.append(("X-B", v1))
+        ok = pand(ok, len(items) == len(want), I.call(h.__len__, ()) == len(want))
+        if len(items) == len(want):
+            for (a, b), (c, d) in zip(items, want):
+                ok = pand(ok, a == c, peq(b, d))
+        ok = pand(ok, bool(I.call(h.__contains__, ("X-A",))), peq(I.call(h.get, ("x-a",)), v0))
+        got_list = list(I.call(h.getlist, ("X-A",)))
+        ok = pand(ok, len(got_list) == 1 and bool(peq(got_list[0], v0)))
+    return ok, {"items": [list(x) for x in items]}
+
+
 def body_immutable_hash(I, X, cls="ImmutableMultiDict", shape="swap"):
     """equality and hashing of the immutable containers are consistent: containers that
     compare equal hash equal (whatever the insertion order)"""
@@ -502,6 +588,12 @@ def body_immutable(I, X, cls="ImmutableMultiDict", op="add"):
 def obligations(tier, seed):
     out = []
     quick = tier == "quick"
+    for late in (False, True):
+        out.append({"name": f"combined[late_add={late}]", "body": "body_combined", "params": {"late_add": late},
+                    "opts": {"budget_s": 600, "ctx": {"max_cp": 0x7F}}})
+    for n in (1, 2):
+        out.append({"name": f"environ_headers[n={n}]", "body": "body_environ_headers", "params": {"n": n},
+                    "opts": {"budget_s": 600, "ctx": {"max_cp": 0x7F}}})
     for cls in ("ImmutableMultiDict", "ImmutableDict", "ImmutableTypeConversionDict"):
         for shape in ("swap", "three", "other"):
             out.append({"name": f"immutable_hash[{cls},{shape}]", "body": "body_immutable_hash", "params": {"cls": cls, "shape": shape},
